@@ -913,10 +913,12 @@ fn sx_expr(e: &syn::Expr) -> String {
             o
         }
         syn::Expr::MethodCall(c) => {
-            if c.turbofish.is_some() {
-                return format!("(unsupported {})", q("turbofish"));
-            }
-            let mut o = format!("(mcall {} {}", sx_expr(&c.receiver), q(&c.method.to_string()));
+            // generic arguments written on the method (turbofish) are kept in the method's text, without white space
+            let targs: String = match &c.turbofish {
+                None => String::new(),
+                Some(t) => ts(t).chars().filter(|c| !c.is_whitespace()).collect::<String>().replace("::<", "<"),
+            };
+            let mut o = format!("(mcall {} {}", sx_expr(&c.receiver), q(&format!("{}{}", c.method, targs)));
             for a in &c.args {
                 o.push(' ');
                 o.push_str(&sx_expr(a));
